@@ -21,6 +21,7 @@ from __future__ import annotations
 import dataclasses
 import itertools
 import random
+import time
 import sys
 import types as pytypes
 from typing import Any, Dict, Iterator, List, Optional, Sequence, Tuple
@@ -52,6 +53,10 @@ class Desc:
     levels: Tuple[Level, ...]
     style: str = "both"
     targets: str = "str"  # "str": after / before / override keys given by name; "obj": by Field / function object
+    aliases: Tuple[Tuple[str, str], ...] = ()  # element name -> external name (alias); ordering specs always refer to names
+
+    def ext(self, name: str) -> str:
+        return dict(self.aliases).get(name, name)
 
     def fields(self) -> List[str]:
         return [n for lv in self.levels for n, _ in lv[0]]
@@ -65,10 +70,15 @@ class Desc:
 
     def short(self) -> str:
         out = []
+        al = dict(self.aliases)
+
+        def nm(n):
+            return n + ("~" + al[n] if n in al else "")
+
         for fs, ms, ov in self.levels:
-            s = "F[" + ",".join(n + _s(sp) for n, sp in fs) + "]"
+            s = "F[" + ",".join(nm(n) + _s(sp) for n, sp in fs) + "]"
             if ms:
-                s += "M[" + ",".join(n + _s(sp) for n, sp in ms) + "]"
+                s += "M[" + ",".join(nm(n) + _s(sp) for n, sp in ms) + "]"
             if ov is not None:
                 if ov[0] == "seq":
                     s += "@seq(" + ",".join(ov[1]) + ")"
@@ -181,6 +191,7 @@ def source_of(desc: Desc, uid: int) -> Tuple[str, str]:
     """the class description as the Python program a user would write; returns (source, class name)"""
     fieldset = set(desc.fields())
     by_obj = desc.targets == "obj"
+    al = dict(desc.aliases)
     lines: List[str] = []
     if desc.style == "both":
         for m in desc.methods():
@@ -218,13 +229,14 @@ def source_of(desc: Desc, uid: int) -> Tuple[str, str]:
         lines.append(f"class {cname}({prev}):" if prev else f"class {cname}:")
         body: List[str] = []
         for n, sp in fs:
-            body.append(f"    {n}: int = field(default=0" + (f", metadata={ordering(sp, True)}" if sp is not None else "") + ")")
+            md = ([f"alias({al[n]!r})"] if n in al else []) + ([ordering(sp, True)] if sp is not None else [])
+            body.append(f"    {n}: int = field(default=0" + (f", metadata={' | '.join(md)}" if md else "") + ")")
             declared.add(n)
         late: List[str] = []
         for n, sp in ms:
-            o = f"order={ordering(sp, True)}" if sp is not None else ""
+            o = ", ".join(([repr(al[n])] if n in al else []) + ([f"order={ordering(sp, True)}"] if sp is not None else []))
             if desc.style == "both":
-                oo = f"order={ordering(sp, False)}, " if sp is not None else ""
+                oo = "".join(([repr(al[n]) + ", "] if n in al else []) + ([f"order={ordering(sp, False)}, "] if sp is not None else []))
                 late += [f"serialized({oo}owner={cname})({n})", f"resolver({oo}owner={cname})({n})"]
                 continue
             if desc.style == "serialized":
@@ -234,7 +246,7 @@ def source_of(desc: Desc, uid: int) -> Tuple[str, str]:
             elif desc.style == "resolver":
                 body.append(f"    @resolver({o})")
             else:
-                body.append(f"    @resolver(serialized=True{', ' + o if o else ''})")
+                body.append(f"    @resolver({o + ', ' if o else ''}serialized=True)")
             body += [f"    def {n}(self) -> int:", "        return 0"]
         lines += body or ["    pass"]
         lines.append("")
@@ -254,7 +266,7 @@ def _F(cls, name):
 
 class Realised:
     def __init__(self, desc: Desc):
-        from apischema import order, serialized
+        from apischema import alias, order, serialized
         from apischema.graphql import resolver
 
         self.desc = desc
@@ -263,7 +275,7 @@ class Realised:
         # a real (throw-away) module: dataclasses and typing.get_type_hints look the module up
         self.modname = f"c16_generated_{uid}"
         mod = pytypes.ModuleType(self.modname)
-        mod.__dict__.update({"dataclass": dataclasses.dataclass, "field": dataclasses.field, "order": order, "serialized": serialized, "resolver": resolver, "_F": _F})
+        mod.__dict__.update({"dataclass": dataclasses.dataclass, "field": dataclasses.field, "order": order, "serialized": serialized, "resolver": resolver, "alias": alias, "_F": _F})
         sys.modules[self.modname] = mod
         try:
             exec(compile(self.source, f"<{self.modname}>", "exec"), mod.__dict__)
@@ -383,6 +395,57 @@ def gen_sequences(n: int, style: str = "both") -> Iterator[Desc]:
                 yield Desc((one_level(nf, nm, [None] * len(els), ("seq", seq)),), style)
 
 
+def _two_levels(nf: int, nm: int, fcut: int, mcut: int, specs: Sequence[Spec], ov_base, ov_derived) -> Desc:
+    fs = [(FIELD_NAMES[i], specs[i]) for i in range(nf)]
+    ms = [(METHOD_NAMES[i], specs[nf + i]) for i in range(nm)]
+    return Desc(((tuple(fs[:fcut]), tuple(ms[:mcut]), ov_base), (tuple(fs[fcut:]), tuple(ms[mcut:]), ov_derived)), "both")
+
+
+def gen_inheritance(n: int) -> Iterator[Desc]:
+    """base class / derived class, every way of cutting the declaration between them: (a) every
+    field-level assignment, no class-level order; (b) one class-level override on the base (over a
+    base element) and one on the derived class (over any element, the same one included), every
+    spec for both, over decoy field-level metadata"""
+    for nf, nm in shapes(n):
+        els = FIELD_NAMES[:nf] + METHOD_NAMES[:nm]
+        decoy: List[Spec] = [("o", ORDER_VALUES[(len(els) - 1 - i) % 4]) for i in range(len(els))]
+        for fcut in range(nf + 1):
+            for mcut in range(nm + 1):
+                base = FIELD_NAMES[:fcut] + METHOD_NAMES[:mcut]
+                if not base or len(base) == len(els):
+                    continue
+                for specs in itertools.product(*[options(els, e) for e in els]):
+                    yield _two_levels(nf, nm, fcut, mcut, specs, None, None)
+                for kb in base:
+                    for sb in options(els, kb)[1:]:
+                        for kd in els:
+                            for sd in options(els, kd)[1:]:
+                                yield _two_levels(nf, nm, fcut, mcut, decoy, ("map", ((kb, sb),)), ("map", ((kd, sd),)))
+                # a sequence on the base re-ordered by a sequence on the derived class
+                for k in range(2, len(base) + 1):
+                    for sq in itertools.permutations(base, k):
+                        for k2 in range(2, len(els) + 1):
+                            for sq2 in itertools.permutations(els, k2):
+                                yield _two_levels(nf, nm, fcut, mcut, [None] * len(els), ("seq", sq), ("seq", sq2))
+
+
+def with_aliases(desc: Desc, mode: str, mask: Optional[Sequence[bool]] = None) -> Desc:
+    """the same class with external names different from the element names: `upper` (Q for q) or
+    `rotate` (every aliased element takes the *name* of the next aliased element, so that a lookup by
+    the wrong kind of name finds another element instead of nothing)"""
+    els = desc.elements()
+    chosen = [e for i, e in enumerate(els) if mask is None or mask[i]]
+    if mode == "upper":
+        al = tuple((e, e.upper()) for e in chosen)
+    elif mode == "rotate":
+        if len(chosen) < 2:
+            return desc
+        al = tuple((e, chosen[(i + 1) % len(chosen)]) for i, e in enumerate(chosen))
+    else:
+        al = ()
+    return dataclasses.replace(desc, aliases=al)
+
+
 def random_desc(rng: random.Random, n: int, max_levels: int = 3) -> Desc:
     """random class: inheritance chain, field-level specs, class-level sequence / mapping on some
     levels, any method style, names or objects as targets"""
@@ -419,7 +482,9 @@ def random_desc(rng: random.Random, n: int, max_levels: int = 3) -> Desc:
             # targets of a base-class override must exist in the final class: always true (subset of els)
         levels.append((tuple((e, rspec(e)) for e in fp), tuple((e, rspec(e)) for e in mp), ov))
     style = rng.choice(STYLES)
-    return Desc(tuple(levels), style, rng.choice(["str", "str", "obj"]))
+    desc = Desc(tuple(levels), style, rng.choice(["str", "str", "obj"]))
+    mode = rng.choice(["none", "none", "upper", "rotate"])
+    return with_aliases(desc, mode, [rng.random() < 0.6 for _ in els]) if mode != "none" else desc
 
 
 # ---------------------------------------------------------------------------
@@ -434,6 +499,8 @@ def feature_tags(desc: Desc, eff: Dict[str, Spec]) -> str:
     tags += sorted(kinds)
     if any(sp is not None and sp[0] in "ab" for sp in eff.values()):
         tags.append("attach")
+    if desc.aliases:
+        tags.append("alias")
     return "+".join(tags) or "plain"
 
 
@@ -444,13 +511,15 @@ def run(report, tier: str, seed: int):
     quick = tier == "quick"
     n_exh = 3 if quick else 4
     n_max = 4 if quick else 5
-    n_rand = 1500 if quick else 20000
+    n_rand = 1500 if quick else 8000
+    n_seq = n_max if quick else 4
+    n_small = 2 if quick else 3
     log = report.driver(
         "order_views_vs_placement",
         bound=f"exhaustive: every class with <= {n_exh} elements (>= 1 field, rest serialized methods / resolvers), every assignment of "
-        f"{{none, order(-1|0|1|999), after=x, before=x (x any other element)}} as field-level metadata and again as class-level mapping over decoy metadata, "
-        f"every class-level sequence over >= 2 of <= {n_max if quick else 4} elements; sampled ({n_rand} seeded random classes with <= {n_max} elements): 1..3 inheritance levels, "
-        f"field-level specs + class-level sequence / mapping per level, 5 method declaration styles, targets by name or by Field / function object; 5 views each",
+        f"{{none, order(-1|0|1|999), after=x, before=x (x any other element)}} as field-level metadata and again (size <= 3 exhaustively, 5 % sample at size 4) as class-level mapping over decoy metadata, "
+        f"every class-level sequence over >= 2 of <= {n_seq} elements; base / derived class pairs with <= {n_small} elements (every cut, every field-level assignment, every pair of one-element overrides base x derived, sequence x sequence); the 4 other method declaration styles and aliased elements (upper-cased / rotated names) exhaustively at size <= {n_small}; sampled ({n_rand} seeded random classes with <= {n_max} elements): 1..3 inheritance levels, "
+        f"field-level specs + class-level sequence / mapping per level, 5 method declaration styles, targets by name or by Field / function object, aliases on a random subset; 5 views each",
         label="B",
     )
     log.rule(
@@ -497,7 +566,7 @@ def run(report, tier: str, seed: int):
             for view in VIEWS:
                 got = views[view]
                 with_methods = (view in ("ser", "sschema") and desc.style in JSON_METHOD_STYLES) or (view == "gql_out" and desc.style in GQL_METHOD_STYLES)
-                exp = perm if with_methods else [e for e in perm if e in fields]
+                exp = [desc.ext(e) for e in perm if with_methods or e in fields]
                 vtag = tag + ("+field-under-absent-method" if (not with_methods and sub) else "")
                 if with_methods and view != "gql_out" and desc.style == "resolver_serialized" and any(sp is not None for _, ms, _ in desc.levels for _, sp in ms):
                     vtag += "+order-given-to-resolver"
@@ -532,19 +601,36 @@ def run(report, tier: str, seed: int):
         if batch:
             check_batch(batch)
 
+    timing = {}
+
+    def stage(name, gen):
+        t0 = time.time()
+        feed(gen)
+        timing[name] = round(timing.get(name, 0) + time.time() - t0, 2)
+
     try:
         for n in range(1, n_exh + 1):
-            feed(gen_field_level(n, "both"))
-            feed(gen_class_mapping(n, "both"))
-        for n in range(2, (n_max if quick else 4) + 1):
-            feed(gen_sequences(n, "both"))
-        # the other declaration styles: exhaustive at size <= 2 (quick) / 3 (thorough)
-        for style in STYLES:
-            if style == "both":
-                continue
-            for n in range(1, (2 if quick else 3) + 1):
-                feed(gen_field_level(n, style))
-        feed(random_desc(rng, rng.randint(2, n_max)) for _ in range(n_rand))
+            stage("field_level", gen_field_level(n, "both"))
+            if n <= 3:
+                stage("class_mapping", gen_class_mapping(n, "both"))
+            else:  # size 4 (thorough): a seeded sample of the class-level mappings
+                stage("class_mapping", (d for d in gen_class_mapping(n, "both") if rng.random() < 0.05))
+        for n in range(2, n_seq + 1):
+            stage("sequences", gen_sequences(n, "both"))
+        for n in range(2, n_small + 1):
+            stage("inheritance", gen_inheritance(n))
+        # the other declaration styles and aliased elements: exhaustive at size <= 2 (quick) / 3 (thorough)
+        for n in range(1, n_small + 1):
+            for style in STYLES:
+                if style != "both":
+                    stage("styles", gen_field_level(n, style))
+                if n <= 2 or style in ("both", "serialized"):
+                    for mode in ("upper", "rotate"):
+                        stage("aliases", (with_aliases(d, mode) for d in gen_field_level(n, style)))
+            for mode in ("upper", "rotate"):
+                stage("aliases", (with_aliases(d, mode) for d in gen_class_mapping(n, "both")))
+        stage("random", (random_desc(rng, rng.randint(2, n_max)) for _ in range(n_rand)))
+        log.stats["stage_seconds"] = timing
     finally:
         apischema.cache.reset()
     return log
